@@ -80,6 +80,7 @@ func run(c *vf.Ctx) {
 	uuidV8(c, V)
 	guidAll(c, V)
 	guidFields(c)
+	reusedReceivers(c, V)
 }
 
 func lattice(c *vf.Ctx) [][16]byte {
@@ -273,11 +274,16 @@ func uuidV1(c *vf.Ctx, V [][16]byte) {
 		l.Check("C13/uuid_v1/GetClockSequence/equals-rfc4122-14-bit-clock-sequence", cs == clk14, func() string {
 			return fmt.Sprintf("UUIDv1.Unmarshal(%s).GetClockSequence() = %#x, RFC 4122 clock sequence (google/uuid ClockSequence()) = %#x: bits 12-13 (low two bits of octet 8's high nibble) are reported in UUID.Variant=%#x instead", g, cs, clk14, u.Variant)
 		})
-		if t := ref.V1Time(ticks); ticks >= ref.GregorianOffset100ns() && !t.Before(tMin) && t.Before(tMax) {
+		{
+			t := ref.V1Time(ticks)
+			tkey := "C13/uuid_v1/GetTime/equals-rfc4122-time-1970..2200"
+			if ticks < ref.GregorianOffset100ns() || t.Before(tMin) || !t.Before(tMax) {
+				tkey = "C13/uuid_v1/GetTime/equals-rfc4122-time-outside-1970..2200"
+			}
 			sec, nsec := g.Time().UnixTime()
 			var gt time.Time
 			pan, msg, where = vf.Try(func() { gt = u.GetTime() })
-			l.Check("C13/uuid_v1/GetTime/equals-rfc4122-time-1970..2200", !pan && gt.Equal(time.Unix(sec, nsec)), func() string {
+			l.Check(tkey, !pan && gt.Equal(time.Unix(sec, nsec)), func() string {
 				return fmt.Sprintf("UUIDv1.Unmarshal(%s).GetTime() = %s, google/uuid Time().UnixTime() = %s (panic=%v %s %s)", g, gt.UTC().Format(time.RFC3339Nano), time.Unix(sec, nsec).UTC().Format(time.RFC3339Nano), pan, msg, where)
 			})
 		}
